@@ -24,7 +24,8 @@ theorem mp_size_ge0 (a : Int) : 0 ≤ mp_size a ↔ 0 ≤ a := by unfold mp_size
 /-- unfold the GMP contracts and word conversions that are linear -/
 macro "gmp_unfold" : tactic => `(tactic| simp only [
   mpz_add, mpz_add_ui, mpz_sub, mpz_sub_ui, mpz_ui_sub, mpz_neg, mpz_abs, mpz_swap_d0, mpz_swap_d1,
-  mpz_cmp, mpz_cmp_ui, mpz_cmp_si, mpz_cmpabs, mpz_cmpabs_ui, mpz_com,
+  mpz_cmp, mpz_cmp_ui, mpz_cmp_si, mpz_cmpabs, mpz_cmpabs_ui, mpz_com, mpz_sgn,
+  mpz_fits_slong_p, mpz_fits_ulong_p, mpz_fits_sint_p, mpz_fits_uint_p, mpz_fits_sshort_p, mpz_fits_ushort_p,
   cmp3_lt0, cmp3_gt0, cmp3_eq0, cmp3_le0, cmp3_ge0, mp_size_lt0, mp_size_gt0, mp_size_eq0, mp_size_le0, mp_size_ge0,
   gt_iff_lt, ge_iff_le, ne_eq, not_not,
   InU8, InU16, InU32, InU64, InS8, InS16, InS32, InS64,
@@ -135,6 +136,8 @@ theorem wrapU64_absS32 (d : Int) (h : InS32 d) (h2 : d ≠ -2147483648) : wrapU6
 
 macro "div_norm" : tactic => `(tactic| (
   try simp only [mpz_tdiv_q, mpz_tdiv_r, mpz_tdiv_qr_d0, mpz_tdiv_qr_d1, mpz_fdiv_q, mpz_fdiv_r, mpz_cdiv_q, mpz_cdiv_r,
+    mpz_fdiv_qr_d0, mpz_fdiv_qr_d1, mpz_cdiv_qr_d0, mpz_cdiv_qr_d1, mpz_tdiv_qr_ui_d0, mpz_tdiv_qr_ui_d1, mpz_tdiv_qr_ui_ret,
+    mpz_fdiv_qr_ui_d0, mpz_fdiv_qr_ui_d1, mpz_fdiv_qr_ui_ret, mpz_cdiv_qr_ui_d0, mpz_cdiv_qr_ui_d1, mpz_cdiv_qr_ui_ret,
     mpz_tdiv_q_ui_d0, mpz_tdiv_q_ui_ret, mpz_tdiv_r_ui_d0, mpz_tdiv_r_ui_ret, mpz_tdiv_ui,
     mpz_fdiv_q_ui_d0, mpz_fdiv_q_ui_ret, mpz_fdiv_r_ui_d0, mpz_fdiv_r_ui_ret, mpz_fdiv_ui,
     mpz_cdiv_q_ui_d0, mpz_cdiv_q_ui_ret, mpz_cdiv_r_ui_d0, mpz_cdiv_r_ui_ret, mpz_cdiv_ui,
